@@ -112,10 +112,14 @@ impl Subscription {
     /// Returns the info for the subscription.
     pub async fn get_info(&self) -> Result<SubscriptionInfo, GetInfoError> {
         let (responder, recv) = oneshot::channel();
+        #[cfg(deltio_verif)]
+        self.verif_before_send("subscription.get_info.before_send").await;
         self.sender
             .send(SubscriptionRequest::GetInfo { responder })
             .await
             .map_err(|_| GetInfoError::Closed)?;
+        #[cfg(deltio_verif)]
+        crate::verif::point("subscription.get_info.before_recv").await;
         recv.await.map_err(|_| GetInfoError::Closed)?
     }
 
@@ -125,6 +129,9 @@ impl Subscription {
         max_count: u16,
     ) -> Result<Vec<PulledMessage>, PullMessagesError> {
         let (responder, recv) = oneshot::channel();
+        #[cfg(deltio_verif)]
+        self.verif_before_send("subscription.pull_messages.before_send")
+            .await;
         self.sender
             .send(SubscriptionRequest::PullMessages {
                 max_count,
@@ -132,6 +139,8 @@ impl Subscription {
             })
             .await
             .map_err(|_| PullMessagesError::Closed)?;
+        #[cfg(deltio_verif)]
+        crate::verif::point("subscription.pull_messages.before_recv").await;
         recv.await.map_err(|_| PullMessagesError::Closed)?
     }
 
@@ -142,6 +151,12 @@ impl Subscription {
         &self,
         new_messages: Vec<Arc<TopicMessage>>,
     ) -> Result<(), PostMessagesError> {
+        #[cfg(deltio_verif)]
+        if self.sender.capacity() == 0 {
+            crate::verif::probe("post_blocked_on_full_mailbox");
+        }
+        #[cfg(deltio_verif)]
+        crate::verif::point("subscription.post_messages.before_send").await;
         self.sender
             .send(SubscriptionRequest::PostMessages {
                 messages: new_messages,
@@ -156,10 +171,14 @@ impl Subscription {
         ack_ids: Vec<AckId>,
     ) -> Result<(), AcknowledgeMessagesError> {
         let (responder, recv) = oneshot::channel();
+        #[cfg(deltio_verif)]
+        self.verif_before_send("subscription.acknowledge_messages.before_send").await;
         self.sender
             .send(SubscriptionRequest::AcknowledgeMessages { ack_ids, responder })
             .await
             .map_err(|_| AcknowledgeMessagesError::Closed)?;
+        #[cfg(deltio_verif)]
+        crate::verif::point("subscription.acknowledge_messages.before_recv").await;
         recv.await.map_err(|_| AcknowledgeMessagesError::Closed)?
     }
 
@@ -169,6 +188,9 @@ impl Subscription {
         deadline_modifications: Vec<DeadlineModification>,
     ) -> Result<(), ModifyDeadlineError> {
         let (responder, recv) = oneshot::channel();
+        #[cfg(deltio_verif)]
+        self.verif_before_send("subscription.modify_ack_deadlines.before_send")
+            .await;
         self.sender
             .send(SubscriptionRequest::ModifyDeadline {
                 deadline_modifications,
@@ -176,27 +198,48 @@ impl Subscription {
             })
             .await
             .map_err(|_| ModifyDeadlineError::Closed)?;
+        #[cfg(deltio_verif)]
+        crate::verif::point("subscription.modify_ack_deadlines.before_recv").await;
         recv.await.map_err(|_| ModifyDeadlineError::Closed)?
     }
 
     /// Gets stats for the subscription.
     pub async fn get_stats(&self) -> Result<SubscriptionStats, GetStatsError> {
         let (responder, recv) = oneshot::channel();
+        #[cfg(deltio_verif)]
+        self.verif_before_send("subscription.get_stats.before_send").await;
         self.sender
             .send(SubscriptionRequest::GetStats { responder })
             .await
             .map_err(|_| GetStatsError::Closed)?;
+        #[cfg(deltio_verif)]
+        crate::verif::point("subscription.get_stats.before_recv").await;
         recv.await.map_err(|_| GetStatsError::Closed)?
     }
 
     /// Deletes the subscription.
     pub async fn delete(&self) -> Result<(), DeleteError> {
         let (responder, recv) = oneshot::channel();
+        #[cfg(deltio_verif)]
+        self.verif_before_send("subscription.delete.before_send").await;
         self.sender
             .send(SubscriptionRequest::Delete { responder })
             .await
             .map_err(|_| DeleteError::Closed)?;
+        #[cfg(deltio_verif)]
+        crate::verif::point("subscription.delete.before_recv").await;
         recv.await.map_err(|_| DeleteError::Closed)?
+    }
+}
+
+#[cfg(deltio_verif)]
+impl Subscription {
+    /// Schedule point in front of a mailbox send; also counts full mailboxes.
+    async fn verif_before_send(&self, site: &'static str) {
+        if self.sender.capacity() == 0 {
+            crate::verif::probe("mailbox_full_at_send");
+        }
+        crate::verif::point(site).await;
     }
 }
 
